@@ -89,7 +89,8 @@ fn draw_cmd(k: u32, pending: bool, payload: &mut u64) -> SubCmd {
 		68..=75 => SubCmd::DropClone,
 		76..=82 => SubCmd::CheckClosed,
 		83..=85 => SubCmd::AwaitClosed(5),
-		86..=92 => SubCmd::Return(0),
+		86..=88 => SubCmd::Detach,
+		89..=93 => SubCmd::Return(0),
 		_ => SubCmd::Return(1),
 	}
 }
